@@ -5,6 +5,7 @@ git -C /repo worktree remove --force $d 2>/dev/null
 git -C /repo worktree add -q --detach $d HEAD || exit 1
 cp $(ls /verif/.cache/parser/*/parser.go | head -1) $d/pkg/parsing/parser/parser.go
 git -C $d update-index --assume-unchanged pkg/parsing/parser/parser.go
+cp $d/pkg/parsing/parser/parser.go /tmp/seed-parser-$id.go
 mkdir -p $d/out
 python3 - "$id" > $d/PROPERTY.txt <<'PY'
 import json,sys
